@@ -25,7 +25,7 @@ fn smoke() -> i32 {
   ]};
   let path = vec![
     PEvent::plain(Event::Set(1, Some(1))), PEvent::plain(Event::TopDown(vec![0])),
-    PEvent::plain(Event::Set(1, Some(0))), PEvent::plain(Event::BottomUp{pre: vec![], reported: vec![1], then: vec![0]}),
+    PEvent::plain(Event::Set(1, Some(0))), PEvent::plain(Event::BottomUp{pre: vec![], reported: vec![1], then: vec![0], builds: 1}),
     PEvent::plain(Event::TopDown(vec![0, 1])),
   ];
   let t0 = std::time::Instant::now();
